@@ -288,6 +288,76 @@ theorem perc_least_prefixed {S T : Space ι} (hT : T ⊑ propOp f P S T) : T ⊑
   · intro i b hP hS hc
     exact hT i b ((propOp_eq_some f P).mpr (Or.inr ⟨hS, hP, hc⟩))
 
+/-! ### Round-based (parallel) evaluation is a run
+
+One application of the operator to the current space (fix, simultaneously, every free variable
+whose update function is definite on the current space) can be simulated by single steps, and a
+round that changes nothing certifies closedness.  Hence every loop of the form
+"repeat rounds until nothing changes" computes `perc f P S`, whatever it does inside a round. -/
+
+omit [Fintype ι] in
+theorem propOp_self_of_fixed {R : Space ι} {i : ι} {b : Bool} (h : R i = some b) :
+    propOp f P R R i = some b := (propOp_eq_some f P).mpr (Or.inl h)
+
+omit [Fintype ι] in
+/-- Applying the operator only on the variables of a finite set `s` is a run. -/
+theorem pSteps_round_finset (R : Space ι) (s : Finset ι) :
+    PSteps f P R (fun i => if i ∈ s then propOp f P R R i else R i) := by
+  induction s using Finset.induction_on with
+  | empty =>
+    have : (fun i => if i ∈ (∅ : Finset ι) then propOp f P R R i else R i) = R := by
+      funext i; simp
+    rw [this]
+  | insert a s ha ih =>
+    set Rs : Space ι := fun i => if i ∈ s then propOp f P R R i else R i with hRs
+    have hsub : Rs ⊑ R := by
+      intro i b hi
+      by_cases his : i ∈ s
+      · simp only [hRs, his, if_true]; exact propOp_self_of_fixed f P hi
+      · simp only [hRs, his, if_false]; exact hi
+    have hRsa : Rs a = R a := by simp [hRs, ha]
+    by_cases heq : propOp f P R R a = R a
+    · have : (fun i => if i ∈ insert a s then propOp f P R R i else R i) = Rs := by
+        funext i
+        by_cases hia : i = a
+        · subst hia; simp [hRs, ha, heq]
+        · simp [hRs, hia]
+      rw [this]; exact ih
+    · have hRa : R a = none := by
+        cases h : R a with
+        | none => rfl
+        | some b => exact absurd (by rw [propOp_self_of_fixed f P h, h]) heq
+      obtain ⟨b, hb⟩ : ∃ b, propOp f P R R a = some b := by
+        cases h : propOp f P R R a with
+        | none => exact absurd (by rw [h, hRa]) heq
+        | some b => exact ⟨b, rfl⟩
+      rcases (propOp_eq_some f P).mp hb with h | ⟨-, hP, hc⟩
+      · rw [hRa] at h; cases h
+      · refine ReflTransGen.tail ih ⟨a, b, hP, by rw [hRsa, hRa], hc.mono hsub, ?_⟩
+        funext i
+        by_cases hia : i = a
+        · subst hia; simp [hb]
+        · simp [hRs, hia]
+
+/-- One full round of the parallel operator is a run. -/
+theorem pSteps_round (R : Space ι) : PSteps f P R (propOp f P R R) := by
+  have := pSteps_round_finset f P R Finset.univ
+  simpa using this
+
+omit [Fintype ι] in
+/-- A round that changes nothing certifies closedness. -/
+theorem pClosed_of_round_eq {R : Space ι} (h : propOp f P R R = R) : PClosed f P R := by
+  intro i b hP hi hc
+  have := (propOp_eq_some f P).mpr (Or.inr ⟨hi, hP, hc⟩)
+  rw [h, hi] at this
+  cases this
+
+/-- **Round-based loops are correct**: if `R` is reached from `S` by propagation (single steps
+and/or whole rounds, in any order) and a further round changes nothing, then `R = perc f P S`. -/
+theorem perc_eq_of_round_fixed {S R : Space ι} (h : PSteps f P S R)
+    (hfix : propOp f P R R = R) : R = perc f P S :=
+  perc_unique h (pClosed_of_round_eq f P hfix)
+
 end Lfp
 
 /-! ### The two instances -/
